@@ -6,7 +6,7 @@
    succeeds (k in [1,n), r <> 0, s <> 0, x(kG) < n). *)
 From Coq Require Import ZArith List Bool.
 From FV Require Import Base.Bytes Crypto.EcdsaModel Crypto.EcdsaSpec Crypto.EcdsaProofs
-                       Crypto.Secp256k1 Crypto.EcdsaWitness.
+                       Crypto.Secp256k1 Crypto.EcdsaWitness Crypto.VmCryptoModel Crypto.VmCryptoProofs.
 Open Scope Z_scope.
 
 (* sign -> recover: the produced 64 bytes recover exactly the signer's public key d.G,
@@ -136,3 +136,21 @@ Proof.
   exact (H f6_sig f6_msg f6_msg' f6_key Hne H1 H2).
 Qed.
 Print Assumptions C17_other_message_refuted.
+
+(* VM instructions ECK1 / ECR1 / ED19 (model of the handlers' set_err / clear_err / write, the library
+   call being an oracle): the outcome reports the library result and does not depend on the previous
+   value of $err *)
+Theorem C17_vm_outcome_independent_of_err :
+  (forall (e e' : N) (lib : option bytes), vm_recover e lib = vm_recover e' lib) /\
+  (forall (e e' : N) (ok : bool), vm_ed19 e ok = vm_ed19 e' ok).
+Proof. split; [exact vm_recover_independent_of_err|exact vm_ed19_independent_of_err]. Qed.
+Print Assumptions C17_vm_outcome_independent_of_err.
+
+Theorem C17_vm_reports_library :
+  forall (e : N) (lib : option bytes) (ok : bool),
+    ((fst (vm_recover e lib) = 0%N <-> lib <> None) /\
+     (forall pk, lib = Some pk -> vm_recover e lib = (0%N, pk)) /\
+     (lib = None -> vm_recover e lib = (1%N, zeros 64))) /\
+    (vm_ed19 e ok = 0%N <-> ok = true).
+Proof. intros. split; [apply vm_recover_reports_library|apply vm_ed19_reports_library]. Qed.
+Print Assumptions C17_vm_reports_library.
